@@ -627,3 +627,117 @@ def _cond_of(inst, o, depth):
     if rv['k'] == 'use':
         return _cond_of(inst, rv['op'], depth + 1)
     return ('rv', rv)
+
+
+# ----------------------------------------------------------------------
+# liveness of locals (for the abstract interpreter's loop heads / joins)
+# ----------------------------------------------------------------------
+def _liveness(inst):
+    """live-in sets of locals per block; address-taken locals are always live."""
+    n = len(inst.blocks)
+    use = [set() for _ in range(n)]
+    deff = [set() for _ in range(n)]
+    addr_taken = set()
+
+    def op_use(o, b, acc):
+        if o['k'] in ('copy', 'move'):
+            for l in place_locals(o['p']):
+                if l not in deff[b]:
+                    acc.add(l)
+
+    for b in inst.rpo():
+        blk = inst.blocks[b]
+        for s in blk['stmts']:
+            if s['k'] == 'assign':
+                rv = s['rv']
+                for o in rv_operands(rv):
+                    op_use(o, b, use[b])
+                for p in rv_places(rv):
+                    for l in place_locals(p):
+                        if l not in deff[b]:
+                            use[b].add(l)
+                    if rv['k'] in ('ref', 'rawptr'):
+                        # borrowing a local (not through a deref) makes it escape
+                        if not any(e['k'] == 'deref' for e in p['pr']):
+                            addr_taken.add(p['l'])
+                p = s['p']
+                if p['pr']:
+                    for l in place_locals(p):
+                        if l not in deff[b]:
+                            use[b].add(l)
+                else:
+                    deff[b].add(p['l'])
+            elif s['k'] == 'setdiscr':
+                for l in place_locals(s['p']):
+                    if l not in deff[b]:
+                        use[b].add(l)
+            elif s['k'] == 'assume':
+                op_use(s['op'], b, use[b])
+        t = blk['term']
+        k = t['k']
+        if k == 'call':
+            for a in t['args']:
+                op_use(a, b, use[b])
+            c = t['callee']
+            if 'indirect' in c:
+                op_use(c['indirect'], b, use[b])
+            d = t['dest']
+            if d['pr']:
+                for l in place_locals(d):
+                    if l not in deff[b]:
+                        use[b].add(l)
+            else:
+                deff[b].add(d['l'])
+        elif k == 'switch':
+            op_use(t['op'], b, use[b])
+        elif k == 'assert':
+            op_use(t['cond'], b, use[b])
+            info = t.get('info') or {}
+            for o in info.values():
+                if isinstance(o, dict):
+                    op_use(o, b, use[b])
+        elif k == 'drop':
+            for l in place_locals(t['p']):
+                if l not in deff[b]:
+                    use[b].add(l)
+        elif k == 'return':
+            if 0 not in deff[b]:
+                use[b].add(0)
+    live_in = [set() for _ in range(n)]
+    changed = True
+    order = inst.rpo()[::-1]
+    while changed:
+        changed = False
+        for b in order:
+            out = set()
+            for s in inst.succ(b):
+                out |= live_in[s]
+            new = use[b] | (out - deff[b])
+            if new != live_in[b]:
+                live_in[b] = new
+                changed = True
+    return live_in, addr_taken
+
+
+_live_cache = {}
+
+
+def liveness(inst):
+    k = id(inst)
+    if k not in _live_cache:
+        _live_cache[k] = _liveness(inst)
+    return _live_cache[k]
+
+
+def no_return_blocks(inst):
+    """blocks from which no `return` is reachable (panic-only code)"""
+    rets = inst.exits()
+    can = set()
+    stack = list(rets)
+    while stack:
+        x = stack.pop()
+        if x in can:
+            continue
+        can.add(x)
+        stack.extend(inst.pred(x))
+    return set(inst.rpo()) - can
